@@ -14,6 +14,7 @@ monomials), so it is sound for proving; a `sat` answer is a candidate that must 
 from __future__ import annotations
 
 import math
+import os
 import time
 from fractions import Fraction
 
@@ -23,6 +24,10 @@ import z3
 
 class SymError(Exception):
     """The code under test did something the symbolic scalars cannot model."""
+
+
+class SolverDisagreement(Exception):
+    """two solvers returned sat / unsat for the same query: a harness error, never a violation"""
 
 
 class Realization(SymError):
@@ -130,8 +135,10 @@ class Ctx:
             s.set("timeout", int(timeout_ms))
         return s
 
-    def check(self, extra, timeout_ms=60000, want_model=False):
-        """satisfiability of side /\\ assume /\\ extra; returns ('sat'|'unsat'|'unknown', model)."""
+    def check(self, extra, timeout_ms=60000, want_model=False, cross=False):
+        """satisfiability of side /\\ assume /\\ extra; returns ('sat'|'unsat'|'unknown', model).
+        cross=True (and VERIF_XCHECK=1): the same query is dumped as SMT-LIB2 and decided again by an independent
+        solver binary (z3 4.8.12, and cvc5 where the logic allows); a sat/unsat disagreement raises SolverDisagreement."""
         s = self.solver(timeout_ms)
         ex = [as_z3(e) for e in extra]
         for c in self.side:
@@ -145,7 +152,39 @@ class Ctx:
         self.solver_s += time.time() - t0
         self.queries += 1
         rs = str(r)
+        if cross and rs in ("sat", "unsat") and os.environ.get("VERIF_XCHECK") == "1":
+            self._cross(s, rs)
         return rs, (s.model() if rs == "sat" else None)
+
+    def _cross(self, s, rs):
+        import subprocess
+        import tempfile
+        txt = s.to_smt2()
+        self.xstats = getattr(self, "xstats", {"z3-4.8.12": {"agree": 0, "unknown": 0}, "cvc5": {"agree": 0, "unknown": 0}})
+        for name, cmd, use_file in (("z3-4.8.12", ["/usr/bin/z3", "-in", "-T:20"], False), ("cvc5", ["cvc5", "--tlimit=20000"], True)):
+            try:
+                if use_file:
+                    with tempfile.NamedTemporaryFile("w", suffix=".smt2", delete=False) as f:
+                        f.write(txt)
+                        fn = f.name
+                    try:
+                        out = subprocess.run(cmd + [fn], capture_output=True, text=True, timeout=40).stdout
+                    finally:
+                        os.unlink(fn)
+                else:
+                    out = subprocess.run(cmd, input=txt, capture_output=True, text=True, timeout=40).stdout
+            except Exception:  # noqa: BLE001
+                out = "unknown"
+            first = [ln.strip() for ln in out.splitlines() if ln.strip()]
+            verdict = first[0] if first else "unknown"
+            if "(error" in out:
+                verdict = "unknown"
+            if verdict in ("sat", "unsat"):
+                if verdict != rs:
+                    raise SolverDisagreement(f"{name} says {verdict}, z3 5.1.0 says {rs}")
+                self.xstats[name]["agree"] += 1
+            else:
+                self.xstats[name]["unknown"] += 1
 
 
 _CTX: list[Ctx] = []
